@@ -145,15 +145,48 @@ static C04_TABLE_WEIGHTS: &[(u16, u32)] = &[
     (t::ITER_HASH, 1),
 ];
 
+static C04_SET_WEIGHTS: &[(u16, u32)] = &[
+    (st::INSERT, 14),
+    (st::INSERT_RANGE, 5),
+    (st::REPLACE, 5),
+    (st::REMOVE, 8),
+    (st::GET_OR_INSERT, 5),
+    (st::GET_OR_INSERT_WITH, 6),
+    (st::ENTRY, 8),
+    (st::SWAP, 6),
+    (st::ALGEBRA, 3),
+    (st::OPERATORS, 5),
+    (st::ASSIGN, 10),
+    (st::EXTEND, 5),
+    (st::RETAIN, 5),
+    (st::EXTRACT_IF, 5),
+    (st::DRAIN, 3),
+    (st::CLEAR, 2),
+    (st::SHRINK_TO_FIT, 3),
+    (st::RESERVE, 3),
+    (st::ITER, 2),
+    (st::FILL_TO_CAPACITY, 4),
+    (st::REMOVE_RUN, 6),
+    (st::CLONE, 6),
+    (st::MIRROR, 2),
+    (st::REBUILD, 2),
+];
+
 fn c04_strategy(tier: Tier) -> BoxedStrategy<Case> {
     use proptest::prelude::*;
     let n = if tier == Tier::Quick { 40 } else { 80 };
     (
         union2(
-            map_case_strategy(MapGen { prop: 4, weights: C04_WEIGHTS, max_ops: n, generic_pct: 15, plain_pct: 40 }),
-            3,
-            table_case_strategy(TableGen { prop: 4, weights: C04_TABLE_WEIGHTS, max_ops: n, generic_pct: 15, plain_pct: 40 }),
-            1,
+            union2(
+                map_case_strategy(MapGen { prop: 4, weights: C04_WEIGHTS, max_ops: n, generic_pct: 15, plain_pct: 40 }),
+                3,
+                table_case_strategy(TableGen { prop: 4, weights: C04_TABLE_WEIGHTS, max_ops: n, generic_pct: 15, plain_pct: 40 }),
+                1,
+            ),
+            // debugging aid: HBV_C04_ONLY_SETS=1 makes almost every program a HashSet program
+            if std::env::var_os("HBV_C04_ONLY_SETS").is_some() { 1 } else { 400 },
+            set_case_strategy(SetGen { prop: 4, weights: C04_SET_WEIGHTS, max_ops: n, generic_pct: 15, plain_pct: 40 }),
+            80,
         ),
         0u64..65536,
     )
